@@ -16,7 +16,7 @@ ID = "C01"
 RULE = ("random handshake-consistent joint degree sequences (N 1..40 quick / 1..400 thorough, 1..4 topologies, zero-degree vertices "
         "forced in ~40%, all-zero columns ~10%, stubs uniform / concentrated / all on one vertex) x motif configurations (cliques 2..5, "
         "cycles 3..6, diamond, star, path, chorded cycle, library or harness builders; custom multi-orbit motifs with orbit structures "
-        "(1),(2),(3),(4),(1,2),(2,1),(1,3),(2,2),(2,2,1),(1,1),(1,1,1)) x {fast, network, custom} x {direct, GCMAlgorithmMain enum/str, "
+        "(1),(2),(3),(4),(1,2),(2,1),(1,3),(2,2),(2,2,1),(1,1),(1,1,1), orbit columns listed in builder-slot order which in 30% of the multi-orbit motifs is not ascending; topology names strings, integer labels incl. 0 (12%) or with an empty string (5%)) x {fast, network, custom} x {direct, GCMAlgorithmMain enum/str, "
         "factory} x 7 RNG schedules (3 seeds + identity/reverse/rotate/sort-descending shuffles); a case = one (jds, configuration) under "
         "all schedules; in 60% of the cases ONE generator object serves all seven calls and receives the caller's own list object, which is edited in place "
         "between calls (rows permuted / swapped, zero-degree vertices appended or dropped), and in half of those a second generator of the same class with another "
